@@ -19,6 +19,9 @@ RULE = ('Fixed pool of ~380 values of all nine types (nested to depth 3, date/na
         'mathMin/mathMax, arrayIndexOf/arrayLastIndexOf. Non-trivial: the values have different types or one is a container '
         '(triples: >= 2 types); distinct by content hash.')
 RULE += ' Also: integers beyond the double range (2**1024, 2**1100 +- 1), aware datetimes whose UTC offsets are 26 hours apart; dataSort specifications that name a field twice with opposite directions and entries without a direction.'
+RULE += (' History family: a container is compared, edited in place (members replaced, added, removed, at any depth) and compared again; '
+         'every comparison, operator and sort of the edited container must equal that of a freshly built equal container (no answer may '
+         'depend on what was compared before).')
 ASSUMPTIONS = [
     'NaN is excluded (the property quantifies over non-NaN values)',
     'the reference answer is asserted only where the statement fixes it: objects compared position-wise must have identical key sets',
@@ -215,6 +218,92 @@ def check_consumers(arr, probe_value, desc, second):
             raise Violation('dataSort is not stable at %d' % i, d, 'datasort-stable')
 
 
+def fresh(v):
+    """An equal value sharing no container with v (leaves are shared)."""
+    if isinstance(v, list):
+        return [fresh(x) for x in v]
+    if isinstance(v, dict):
+        return {k: fresh(x) for k, x in v.items()}
+    return v
+
+
+def _edit(rnd, v, p, steps):
+    """One in-place edit somewhere inside container v; appends a replayable step."""
+    path = []
+    cur = v
+    while True:
+        kids = [(k, x) for k, x in (enumerate(cur) if isinstance(cur, list) else cur.items()) if is_container(x)]
+        if kids and rnd.random() < 0.4:
+            k, cur = rnd.choice(kids)
+            path.append(k)
+        else:
+            break
+    new = fresh(p[rnd.randrange(len(p))])
+    keys = list(range(len(cur))) if isinstance(cur, list) else list(cur)
+    r = rnd.random()
+    if keys and r < 0.7:
+        k = rnd.choice(keys)
+        op = 'set'
+    elif keys and r < 0.8:
+        k = rnd.choice(keys)
+        op = 'del'
+    else:
+        k = len(cur) if isinstance(cur, list) else rnd.choice(['a', 'b', 'k', 'zz', ''])
+        op = 'add'
+    steps.append({'path': path, 'op': op, 'key': k, 'value': enc(new)})
+    _apply_edit(v, steps[-1], new)
+
+
+def _apply_edit(v, step, new=None):
+    cur = v
+    for k in step['path']:
+        cur = cur[k]
+    if new is None:
+        new = dec(step['value'])
+    if step['op'] == 'del':
+        del cur[step['key']]
+    elif step['op'] == 'add' and isinstance(cur, list):
+        cur.append(new)
+    else:
+        cur[step['key']] = new
+
+
+def check_history(a0, b0, steps, d=None):
+    """a0 (container) is compared with b0, edited in place step by step, and compared again after every step."""
+    d = d or {'kind': 'history', 'a': enc(a0), 'b': enc(b0), 'steps': steps}
+    a, b = fresh(a0), fresh(b0)
+    ms, _ = models()
+    for n in range(len(steps) + 1):
+        if n:
+            _apply_edit(a, steps[n - 1])
+        fa, fb = fresh(a), fresh(b)
+        want = compare(fa, fb)
+        for x, y, sign, what in ((a, b, 1, 'compare(edited, other)'), (b, a, -1, 'compare(other, edited)'), (a, fb, 1, 'compare(edited, fresh other)'),
+                                 (fa, b, 1, 'compare(fresh equal, other)')):
+            got = compare(x, y)
+            if got != sign * want:
+                raise Violation('after %d in-place edit(s) %s = %r, the same comparison of freshly built equal values gives %r' % (n, what, got, sign * want),
+                                dict(d, step=n), 'history-compare')
+        if compare(a, fa) != 0 or compare(fa, a) != 0 or compare(a, a) != 0:
+            raise Violation('after %d in-place edit(s) the container does not compare equal to a freshly built equal container' % n, dict(d, step=n),
+                            'history-equal')
+        eq = impl.bs.execute_script(ms['=='], {'globals': {'x': a, 'y': b}})
+        if eq is not (want == 0):
+            raise Violation('after %d in-place edit(s) the == operator gives %r, fresh values compare %r' % (n, eq, want), dict(d, step=n), 'history-operator')
+        out = impl.run_model(ms['sort'], {'x': [a, b, a]})
+        exp = impl.run_model(ms['sort'], {'x': [fa, fb, fa]})
+        pos = [0 if x is a else 1 for x in out.value] if out.kind == 'ok' else None
+        epos = [0 if x is fa else 1 for x in exp.value] if exp.kind == 'ok' else None
+        if pos != epos:
+            raise Violation('after %d in-place edit(s) arraySort orders the edited container %r, freshly built equal values %r' % (n, pos, epos),
+                            dict(d, step=n), 'history-sort')
+        idx = impl.run_model(ms['idx'], {'x': [b, a, fb], 'y': fa}).value
+        eidx = impl.run_model(ms['idx'], {'x': [fb, fa, fb], 'y': fa}).value
+        if idx != eidx:
+            raise Violation('after %d in-place edit(s) arrayIndexOf/arrayLastIndexOf give %r, with freshly built equal values %r' % (n, idx, eidx),
+                            dict(d, step=n), 'history-indexof')
+
+
 def plan(tier):
     n = len(pool())
     parts = 12 if tier == 'quick' else 16
@@ -225,6 +314,7 @@ def plan(tier):
     rparts = 2 if tier == 'quick' else 16
     specs += [{'kind': 'rtriples', 'n': 60000 if tier == 'quick' else 600000, 'k': i} for i in range(rparts)]
     specs += [{'kind': 'consumers', 'n': 2000 if tier == 'quick' else 20000, 'k': i} for i in range(4 if tier == 'quick' else 16)]
+    specs += [{'kind': 'history', 'n': 1500 if tier == 'quick' else 40000, 'k': i} for i in range(2 if tier == 'quick' else 16)]
     assert n > 300
     return specs
 
@@ -276,6 +366,24 @@ def run_shard(ctx, spec):
             types = {ref_type(p[i]), ref_type(p[j]), ref_type(p[k])}
             ctx.case(digest('t%d,%d,%d' % (i, j, k)), len(types) >= 2, ['triple-random'])
         return
+    if spec['kind'] == 'history':
+        containers = [i for i, x in enumerate(p) if is_container(x) and x]
+
+        def hprop(seed):
+            rnd = random.Random(seed)
+            i = rnd.choice(containers)
+            a0 = p[i]
+            r = rnd.random()
+            b0 = a0 if r < 0.4 else p[min(n - 1, max(0, i + rnd.randint(-6, 6)))] if r < 0.8 else p[rnd.randrange(n)]
+            steps = []
+            a = fresh(a0)
+            for _ in range(rnd.randint(1, 4)):
+                _edit(rnd, a, p, steps)
+            check_history(a0, b0, steps)
+            ctx.case(digest(enc([a0, b0, steps])), True, ['history', 'steps=%d' % len(steps)] + sorted({'edit:' + s_['op'] for s_ in steps}),
+                     {'a': a0, 'b': b0, 'steps': steps})
+        run_hypothesis(ctx, hprop, [st.integers(0, 2 ** 40)], spec['n'], salt=100 + spec['k'])
+        return
     # consumers, Hypothesis
     elem = st.sampled_from(p)
     related = st.integers(0, n - 1).flatmap(lambda i: st.lists(st.sampled_from(p[max(0, i - 8):i + 8]), max_size=8))
@@ -296,6 +404,8 @@ def replay(detail):
         if detail.get('same'):
             b = a
         check_pair(a, b)
+    elif k == 'history':
+        check_history(dec(detail['a']), dec(detail['b']), detail['steps'])
     elif k == 'triple':
         check_triple(dec(detail['a']), dec(detail['b']), dec(detail['c']))
     else:
